@@ -39,8 +39,8 @@ NoEn   == [k |-> 0, v |-> 0, cost |-> 0, dl |-> 0, left |-> "none", notified |->
 Init0 == [tid |-> "none", line |-> 0, maxsize |-> 0, pool |-> 0, door |-> 0, loading |-> 0, mode |-> "none",
           mp |-> [k \in KeyDom |-> 0], en |-> <<>>, pc |-> <<>>, lin |-> <<>>, pn |-> <<>>,
           now |-> 0, closed |-> FALSE, closedDone |-> FALSE, press |-> 0,
-          sent |-> <<>>, appl |-> <<>>, psent |-> <<>>, need |-> <<>>,
-          gets |-> 0, hits |-> 0, rv |-> <<>>, rdirty |-> <<>>, pl |-> <<>>,
+          sent |-> <<>>, appl |-> <<>>, psent |-> <<>>, owes |-> <<>>, need |-> <<>>,
+          gets |-> 0, hits |-> 0, lp |-> [k \in KeyDom |-> "none"], lrun |-> [k \in KeyDom |-> 0], lfail |-> <<>>, rv |-> <<>>, rdirty |-> <<>>, pl |-> <<>>,
           lastTick |-> -1, stalled |-> FALSE, heldAcc |-> 0, thresh |-> 28610, nsnap |-> 0, nnotif |-> 0, nevents |-> 0, viol |-> {}, traces |-> 0, hangs |-> 0,
           stuck |-> 0, skipped |-> 0]
 
@@ -64,6 +64,12 @@ ExpDl(s, c, olddl) ==
   IF c.ttl > 0 THEN (IF c.ttl >= CapU - c.t THEN CapU ELSE c.t + c.ttl)
   ELSE olddl
 
+\* C01/C13: the loader's result is stored atomically with the load (shard write lock held throughout):
+\* nobody else may write the key between the load event and the store by the loading process
+Intervene(s, p, k) ==
+  IF s.lp[k] # "none" /\ s.lp[k] # p THEN V(s, "C01", "write_between_load_and_store_of_loaded_value") ELSE s
+ClearLp(s, p, k) == IF s.lp[k] = p THEN [s EXCEPT !.lp = [s.lp EXCEPT ![k] = "none"]] ELSE s
+
 DoReset(s, e) ==
   [Init0 EXCEPT !.tid = e.id, !.maxsize = e.maxsize, !.pool = e.pool, !.door = e.door, !.loading = e.loading,
                 !.mode = e.mode, !.now = e.t, !.lastTick = e.t, !.thresh = e.thresh, !.viol = s.viol, !.traces = s.traces + 1, !.hangs = s.hangs,
@@ -72,19 +78,19 @@ DoReset(s, e) ==
 DoCall(s, e) ==
   LET c == [op |-> e.op, k |-> e.k, v |-> e.v, cost |-> e.cost, ttl |-> e.ttl, t |-> e.t, ac |-> s.closedDone]
       busy == \E q \in DOMAIN s.pc : q # e.p /\ s.pc[q].op # "none"
-      s1 == [s EXCEPT !.pc = Put(s.pc, e.p, c), !.lin = Put(s.lin, e.p, NoLin),
+      s1 == [s EXCEPT !.pc = Put(s.pc, e.p, c), !.lin = Put(s.lin, e.p, NoLin), !.owes = Put(s.owes, e.p, <<>>),
                       !.rdirty = [q \in DOMAIN s.rdirty |-> TRUE]]
   IN CASE e.op = "wait" -> [s1 EXCEPT !.need = Put(s.need, e.p, s.sent)]
        [] e.op = "range" -> [s1 EXCEPT !.rv = Put(s.rv, e.p, <<>>), !.rdirty = Put(s1.rdirty, e.p, busy)]
        [] e.op = "len" -> [s1 EXCEPT !.rdirty = Put(s1.rdirty, e.p, busy)]
-       [] e.op = "lget" -> [s1 EXCEPT !.pl = Put(s.pl, e.p, {})]
+       [] e.op = "lget" -> [s1 EXCEPT !.pl = Put(s.pl, e.p, {}), !.lfail = Put(s.lfail, e.p, FALSE)]
        [] e.op = "close" -> [s1 EXCEPT !.closed = TRUE]
        [] OTHER -> s1
 
 \* --- linearization events ------------------------------------------------------------
 DoSetNew(s, e) ==
   LET c == Pc(s, e.p)
-      s1 == Vif(s, s.mp[e.k] # 0, "C01", "new_entry_over_present_key")
+      s1 == Vif(ClearLp(Intervene(s, e.p, e.k), e.p, e.k), s.mp[e.k] # 0, "C01", "new_entry_over_present_key")
       s2 == Vif(s1, e.cost > s.maxsize, "C06", "admitted_cost_above_maxsize")
       isset == c.op = "set"
       s3 == Vif(s2, isset /\ (c.k # e.k \/ c.v # e.v \/ c.cost # e.cost), "C01", "stored_other_than_written")
@@ -92,17 +98,23 @@ DoSetNew(s, e) ==
       li == Lin(s, e.p)
       isload == c.op = "lget" /\ li.kind = "load"
       \* C13: a successful load is admitted exactly as a Set with the cost and TTL the loader returned
-      s4 == Vif(s4a, isload /\ (e.v # li.v \/ e.cost # li.cost \/ e.dl # ExpDl(s, [ttl |-> li.ttl, t |-> li.t], 0)),
+      s4b == Vif(s4a, c.op = "lget" /\ Get(s.lfail, e.p, FALSE), "C13", "result_of_failed_load_stored")
+      s4 == Vif(s4b, isload /\ (e.v # li.v \/ e.cost # li.cost \/ e.dl # ExpDl(s, [ttl |-> li.ttl, t |-> li.t], 0)),
                 "C13", "load_not_admitted_as_set_with_loader_cost_and_ttl")
-  IN [s4 EXCEPT !.mp = [s.mp EXCEPT ![e.k] = e.e],
-                !.en = Put(s.en, e.e, [NoEn EXCEPT !.k = e.k, !.v = e.v, !.cost = e.cost, !.dl = e.dl, !.ub = e.cost]),
+      \* the observer keeps the deadline the call establishes (call time + TTL), not the one the code stored,
+      \* so that a wrong deadline also shows up as a miss on a live entry / an early expiry
+      xdl == IF isset THEN ExpDl(s, c, 0) ELSE IF isload THEN ExpDl(s, [ttl |-> li.ttl, t |-> li.t], 0) ELSE e.dl
+      s4c == Vif(s4, isset /\ c.ttl = 0 /\ e.dl # 0, "C06", "new_entry_without_ttl_has_a_deadline")
+  IN [s4c EXCEPT !.mp = [s.mp EXCEPT ![e.k] = e.e],
+                !.en = Put(s.en, e.e, [NoEn EXCEPT !.k = e.k, !.v = e.v, !.cost = e.cost, !.dl = xdl, !.ub = e.cost]),
+                !.owes = Put(s.owes, e.p, <<e.e, "NEW", e.cost>>),
                 !.press = s.press + e.cost,
                 !.lin = Put(s.lin, e.p, [NoLin EXCEPT !.kind = "setnew", !.found = 0, !.v = e.v, !.e = e.e])]
 
 DoSetUpd(s, e) ==
   LET c == Pc(s, e.p)
       o == En(s, e.e)
-      s1 == Vif(s, s.mp[e.k] # e.e, "C01", "update_of_entry_not_in_map")
+      s1 == Vif(ClearLp(Intervene(s, e.p, e.k), e.p, e.k), s.mp[e.k] # e.e, "C01", "update_of_entry_not_in_map")
       s2 == Vif(s1, e.cost > s.maxsize, "C06", "admitted_cost_above_maxsize")
       isset == c.op = "set"
       s3 == Vif(s2, isset /\ (c.k # e.k \/ c.v # e.v \/ c.cost # e.cost), "C01", "stored_other_than_written")
@@ -112,12 +124,16 @@ DoSetUpd(s, e) ==
       s5 == Vif(s4, isset /\ c.ttl = 0 /\ expired /\ e.dl # 0, "C06", "set_without_ttl_over_expired_keeps_old_deadline")
       li == Lin(s, e.p)
       isload == c.op = "lget" /\ li.kind = "load"
-      s5a == Vif(s5, isload /\ (e.v # li.v \/ e.cost # li.cost \/ e.dl # ExpDl(s, [ttl |-> li.ttl, t |-> li.t], o.dl)),
+      s5z == Vif(s5, c.op = "lget" /\ Get(s.lfail, e.p, FALSE), "C13", "result_of_failed_load_stored")
+      s5a == Vif(s5z, isload /\ (e.v # li.v \/ e.cost # li.cost \/ e.dl # ExpDl(s, [ttl |-> li.ttl, t |-> li.t], o.dl)),
                  "C13", "load_not_admitted_as_set_with_loader_cost_and_ttl")
       s5b == Vif(s5a, isload /\ li.ttl = 0 /\ o.dl # 0 /\ o.dl <= li.t /\ e.dl # 0, "C06", "set_without_ttl_over_expired_keeps_old_deadline")
       s6 == Vif(s5b, e.old # o.cost, "C02", "old_cost_reported_differs")
       inc == IF e.cost > o.cost THEN e.cost - o.cost ELSE 0
-  IN [s6 EXCEPT !.en = Put(s.en, e.e, [o EXCEPT !.v = e.v, !.cost = e.cost, !.dl = e.dl, !.ub = o.ub + inc]),
+      \* (for a Set without TTL over an expired entry the code's choice - keep the old deadline - is followed, see D4)
+      xdl == IF isset /\ c.ttl > 0 THEN ExpDl(s, c, o.dl) ELSE IF isload /\ li.ttl > 0 THEN ExpDl(s, [ttl |-> li.ttl, t |-> li.t], o.dl) ELSE e.dl
+  IN [s6 EXCEPT !.en = Put(s.en, e.e, [o EXCEPT !.v = e.v, !.cost = e.cost, !.dl = xdl, !.ub = o.ub + inc]),
+                !.owes = Put(s.owes, e.p, <<e.e, "UPDATE", e.cost - e.old>>),
                 !.press = s.press + inc,
                 !.lin = Put(s.lin, e.p, [NoLin EXCEPT !.kind = "setupd", !.found = 0, !.v = e.v, !.e = e.e])]
 
@@ -140,17 +156,20 @@ DoGet(s, e) ==
                      stale == c.t - s.lastTick >= s.thresh /\ s.heldAcc >= s.thresh - (s.thresh \div 10)
                      d == IF late THEN V(b, "C03", IF stale THEN "served_after_deadline_under_stalled_policy_lock" ELSE "served_at_or_after_deadline") ELSE b
                  IN Vif(d, c.ac, "C10", "hit_after_close")
-            ELSE Vif(s, cur # 0 /\ ~s.closed /\ ~(o.dl # 0 /\ o.dl <= s.now), "C01", "miss_on_live_entry")
+            ELSE LET live == cur # 0 /\ ~s.closed /\ ~(o.dl # 0 /\ o.dl <= s.now) IN
+                 Vif(Vif(s, live, "C01", "miss_on_live_entry"), live, "C06", "stored_value_not_readable")
   IN [s1 EXCEPT !.lin = Put(s.lin, e.p, [NoLin EXCEPT !.kind = "get", !.found = e.found, !.v = e.v, !.e = e.e])]
 
 DoDel(s, e) ==
   LET cur == s.mp[e.k]
-      s1 == IF e.ok = 1 THEN Vif(s, cur # e.e \/ cur = 0, "C01", "delete_of_entry_not_in_map")
-            ELSE Vif(s, cur # 0 /\ ~s.closed, "C01", "delete_missed_present_key")
+      s0 == Intervene(s, e.p, e.k)
+      s1 == IF e.ok = 1 THEN Vif(s0, cur # e.e \/ cur = 0, "C01", "delete_of_entry_not_in_map")
+            ELSE Vif(s0, cur # 0 /\ ~s.closed, "C01", "delete_missed_present_key")
       o == En(s, e.e)
   IN IF e.ok = 1
      THEN [s1 EXCEPT !.mp = [s.mp EXCEPT ![e.k] = 0],
                      !.en = Put(s.en, e.e, [o EXCEPT !.left = "REMOVED"]),
+                     !.owes = Put(s.owes, e.p, <<e.e, "REMOVE", 0>>),
                      !.lin = Put(s.lin, e.p, [NoLin EXCEPT !.kind = "del", !.found = 1, !.v = 0, !.e = e.e])]
      ELSE [s1 EXCEPT !.lin = Put(s.lin, e.p, [NoLin EXCEPT !.kind = "del", !.found = 0, !.v = 0, !.e = 0])]
 
@@ -184,9 +203,10 @@ DoRet(s, e) ==
                 b == Vif(a, ~hit /\ own /\ e.ok = 1 /\ e.v # li.v, "C13", "leader_returns_other_than_loaded")
                 d == Vif(b, ~hit /\ ~own /\ e.ok = 1 /\ e.v \notin Get(s.pl, e.p, {}), "C13", "follower_result_not_from_overlapping_load")
                 f == Vif(d, c.ac /\ e.n # 2, "C10", "loading_get_after_close_not_cache_closed_error")
-            IN [f EXCEPT !.gets = s.gets + 1, !.hits = s.hits + (IF hit THEN 1 ELSE 0),
-                         !.sent = IF e.p \in DOMAIN s.psent /\ s.psent[e.p] # <<>> THEN BagAdd(s.sent, s.psent[e.p]) ELSE s.sent,
-                         !.psent = Put(s.psent, e.p, <<>>)]
+            IN [f EXCEPT !.lp = [k \in KeyDom |-> IF s.lp[k] = e.p THEN "none" ELSE s.lp[k]],
+                         !.gets = s.gets + 1, !.hits = s.hits + (IF hit THEN 1 ELSE 0),
+                         !.sent = IF e.p \in DOMAIN s.owes /\ s.owes[e.p] # <<>> THEN BagAdd(s.sent, s.owes[e.p]) ELSE s.sent,
+                         !.owes = Put(s.owes, e.p, <<>>)]
        [] e.op = "set" ->
             LET big == c.cost > s.maxsize
                 a == Vif(s0, e.ok = 0 /\ ~big /\ li.kind # "setrej", "C06", "set_false_without_reason")
@@ -194,11 +214,11 @@ DoRet(s, e) ==
                 d == Vif(b, e.ok = 1 /\ big, "C06", "set_true_for_cost_above_maxsize")
                 f == Vif(d, e.ok = 1 /\ li.kind \notin {"setnew", "setupd", "setclosed"}, "C06", "set_true_but_nothing_stored")
                 g == Vif(f, c.ac /\ li.kind \in {"setnew", "setupd"}, "C10", "set_has_effect_after_close")
-            IN [g EXCEPT !.sent = IF e.p \in DOMAIN s.psent /\ s.psent[e.p] # <<>> THEN BagAdd(s.sent, s.psent[e.p]) ELSE s.sent,
-                         !.psent = Put(s.psent, e.p, <<>>)]
+            IN [g EXCEPT !.sent = IF e.p \in DOMAIN s.owes /\ s.owes[e.p] # <<>> THEN BagAdd(s.sent, s.owes[e.p]) ELSE s.sent,
+                         !.owes = Put(s.owes, e.p, <<>>)]
        [] e.op = "del" ->
-            [s0 EXCEPT !.sent = IF e.p \in DOMAIN s.psent /\ s.psent[e.p] # <<>> THEN BagAdd(s.sent, s.psent[e.p]) ELSE s.sent,
-                       !.psent = Put(s.psent, e.p, <<>>)]
+            [s0 EXCEPT !.sent = IF e.p \in DOMAIN s.owes /\ s.owes[e.p] # <<>> THEN BagAdd(s.sent, s.owes[e.p]) ELSE s.sent,
+                       !.owes = Put(s.owes, e.p, <<>>)]
        [] e.op = "wait" ->
             \* (with the entry pool on, entry identities are recycled while their events are in flight: not compared)
             Vif(s0, s.pool = 0 /\ ~Geq(s.appl, Get(s.need, e.p, <<>>)), "C20", "wait_returned_before_earlier_writes_applied")
@@ -268,7 +288,10 @@ DoAdv(s, e) == [s EXCEPT !.now = Max(s.now, e.t), !.heldAcc = IF s.stalled /\ e.
 DoLoad(s, e) ==
   \* a loader ran on process p for key k: its value is what leader and followers must return
   LET waiting == {q \in DOMAIN s.pc : s.pc[q].op = "lget" /\ s.pc[q].k = e.k}
-  IN [s EXCEPT !.pl = [q \in DOMAIN s.pl |-> IF q \in waiting THEN s.pl[q] \cup {e.v} ELSE s.pl[q]],
+      s0 == Vif(s, s.lrun[e.k] > 0, "C13", "two_loader_invocations_running_for_one_key")
+  IN [s0 EXCEPT !.lp = [s.lp EXCEPT ![e.k] = e.p], !.lrun = [s.lrun EXCEPT ![e.k] = @ + 1],
+               !.lfail = Put(s.lfail, e.p, FALSE),
+               !.pl = [q \in DOMAIN s.pl |-> IF q \in waiting THEN s.pl[q] \cup {e.v} ELSE s.pl[q]],
                !.lin = Put(s.lin, e.p, [NoLin EXCEPT !.kind = "load", !.v = e.v, !.cost = e.cost, !.ttl = e.ttl, !.t = e.t])]
 
 \* --- snapshots at quiescent points ---------------------------------------------------
@@ -318,7 +341,7 @@ DoSnap(s, e) ==
                               IF x \in mapIds THEN [s.en[x] EXCEPT !.ub = s.en[x].cost]
                               ELSE [s.en[x] EXCEPT !.dead = TRUE]],
                     !.press = costSum,
-                    !.sent = <<>>, !.appl = <<>>, !.psent = <<>>]
+                    !.sent = <<>>, !.appl = <<>>, !.psent = <<>>, !.owes = <<>>]
      ELSE o
 
 DoTickLocked(s, e) == [Owed(s, e.p) EXCEPT !.lastTick = e.t, !.stalled = TRUE, !.heldAcc = 0]
@@ -348,6 +371,9 @@ Upd(s0, e) ==
     [] e.ev = "notify" -> DoNotify(s, e)
     [] e.ev = "adv" -> DoAdv(s, e)
     [] e.ev = "load" -> DoLoad(s, e)
+    [] e.ev = "loadend" -> [s EXCEPT !.lrun = [s.lrun EXCEPT ![e.k] = IF @ > 0 THEN @ - 1 ELSE 0],
+                                     !.lfail = Put(s.lfail, e.p, e.o # "ok"),
+                                     !.lp = IF e.o # "ok" /\ s.lp[e.k] = e.p THEN [s.lp EXCEPT ![e.k] = "none"] ELSE s.lp]
     [] e.ev = "snap" -> DoSnap(s, e)
     [] e.ev = "ticklocked" -> DoTickLocked(s, e)
     [] e.ev = "hang" -> DoHang(s, e)
